@@ -3,6 +3,17 @@ from pyvc.contracts import Theorem, Case, fn_contract, register
 
 FLAGS = [0x01, 0x02, 0x03, 0x81, 0x82, 0x83]
 
+
+def _gen(rng):
+    n_in = rng.randint(1, 8)
+    n_out = rng.randint(1, 8)
+    rb = lambda n: bytes(rng.getrandbits(8) for _ in range(n))  # noqa
+    txins = [rb(36) + bytes([k]) + rb(k) + rb(4) for k in (rng.randint(0, 30) for _ in range(n_in))]
+    txouts = [rb(8) + bytes([k]) + rb(k) for k in (rng.randint(0, 40) for _ in range(n_out))]
+    return {"txins": txins, "txin_index": rng.randrange(n_in), "txin_value": rng.choice([0, 1, 21 * 10**14, rng.getrandbits(50)]),
+            "scriptcode": rb(rng.choice([1, 26, 80, 300, 600])), "txouts": txouts, "version": rng.choice([1, 2, 2**32 - 1]),
+            "locktime": rng.choice([0, 17, 2**32 - 1, rng.getrandbits(32)]), "sighash_flag": rng.choice(FLAGS)}
+
 register(fn_contract(
     "C11.witness_message", ["C11", "C16"], "bits.bips.bip143.witness_message",
     {"txins": "list:bytes", "txin_index": "int", "txin_value": "int", "scriptcode": "bytes",
@@ -12,7 +23,7 @@ register(fn_contract(
         "preimage": "result == spec.bip143.bip143_msg(version, txins, txin_index, txin_value, scriptcode, txouts, locktime, sighash_flag)",
         "length": "len(result) == 4 + 32 + 32 + len(txins[txin_index][:36]) + len(scriptcode) + 8 + len(txins[txin_index][-4:]) + 32 + 4 + 4",
     })],
-    returns="bytes",
+    returns="bytes", options={"native_gen": _gen},
     witnesses=[
         {"txins": [b"\x01" * 36 + b"\x00" + b"\xee\xff\xff\xff", b"\x02" * 36 + b"\x00" + b"\xff\xff\xff\xff"], "txin_index": 1,
          "txin_value": 600000000, "scriptcode": b"\x19\x76\xa9\x14" + b"\x11" * 20 + b"\x88\xac",
